@@ -32,7 +32,7 @@ DECIDES = {
     "C02": ["InOrderOnce", "VersionsHonest", "Backed"],
     "C03": ["InOrderOnce"],
     "C08": ["ClosedOnce", "NothingAfter", "Verdict", "Freed", "CloseCompletes"],
-    "C09": ["AllDelivered", "KeyEstablished", "OnceEach", "InOrderOnce"],
+    "C09": ["AllDelivered", "KeyEstablished", "OnceEach", "InOrderOnce", "CloseCompletes"],
     "C14": ["NoInternal", "DocVerdict"],
     "C18": ["OnceEach", "Causal", "VersionsFirst", "LateGets"],
     "C19": ["OnlyOneCode", "NoInternal"],
@@ -93,6 +93,7 @@ def cfgs_for(prop, tier):   # noqa: F811  (replaces the draft above)
         out["drop_sender"] = mk(MaxSend=F(1, 0), MaxDrops=F(1, 0))
         out["drop_receiver"] = mk(MaxSend=F(1, 0), MaxDrops=F(0, 1))
         out["drop_abort"] = mk(MaxSend=F(1, 0), MaxDrops=F(1, 0), MaxAborts=1)
+        out["drop_close"] = mk(AllowClose={"A"}, MaxDrops=F(1, 0))
         if not q:
             out["two_drops_one_side"] = mk(MaxSend=F(1, 0), MaxDrops=F(2, 0))
             out["drop_each"] = mk(MaxSend=F(1, 0), MaxDrops=F(1, 1))
@@ -671,8 +672,11 @@ def random_real_walk(tid, rng, prop, steps=60):
               "welcome_error": prop in ("C08", "C14", "C18") and rng.random() < 0.3}
     budget["Abort"] = rng.choice([0, 1, 2]) if prop in ("C09", "C08", "C14", "C18", "C03") else 0
     budget["SrvErr"] = rng.choice([0, 0, 1]) if prop in ("C08", "C14", "C18") else 0
-    if prop in ("C03", "C09", "C02", "C01"):
+    if prop in ("C03", "C02", "C01"):
         budget["close"] = False
+    if prop == "C09":
+        # the closed notification is an application-visible event too: it must survive drops around close()
+        budget["close"] = rng.random() < 0.3
     codes = {"A": "4-alpha-beta", "B": "4-alpha-beta"}
     if prop == "C01" and rng.random() < 0.6:
         codes["B"] = rng.choice(["4-gamma-delta", "5-alpha-beta"])
